@@ -34,5 +34,5 @@ CASES = [
          old="            try:\n                is_new = hashset.push(key)\n            except Exception as ex:\n                observer.on_error(ex)\n                return\n",
          new="            def probe():\n                return hashset.push(key)\n\n            try:\n                is_new = probe()\n            except Exception as ex:\n                observer.on_error(ex)\n                return\n")]),
     dict(expect="fire", desc="seed C09-r4/1: on_error_resume_next reports `state` instead of the factory's exception", names="E2-routes", edits=[dict(file="reactivex/observable/onerrorresumenext.py",
-         old="                    observer.on_error(ex)", new="                    observer.on_error(state)")]),
+         old="                observer.on_error(ex)", new="                observer.on_error(state)")]),
 ]
